@@ -75,3 +75,29 @@ Qed.
 
 Lemma qdefined_is_qsafe : forall prog s pc, qdefined_from prog s pc <-> qsafe is_unspec prog s pc.
 Proof. intros. unfold qdefined_from, qsafe. tauto. Qed.
+
+(* ------------------------------------------------------------------ deciding safety for runs that end *)
+Lemma qrun_fuel_stable : forall f prog s pc f',
+  snd (qrun_from prog s pc f) <> OutOfFuel ->
+  snd (qrun_from prog s pc f') = OutOfFuel \/ qrun_from prog s pc f' = qrun_from prog s pc f.
+Proof.
+  induction f as [|f IH]; intros prog s pc f' H;
+    rewrite (qrun_eq prog s pc f'); rewrite qrun_eq in H; rewrite qrun_eq;
+    destruct (pc <? 0); try (right; reflexivity);
+    destruct (Zlen prog <=? pc); try (right; reflexivity);
+    destruct (nth_error prog (Z.to_nat pc)) as [i|]; try (right; reflexivity).
+  - cbn in H. congruence.
+  - destruct f' as [|f']; [left; reflexivity|].
+    destruct (qstep i s pc) as [s1 pc1|o]; [|right; reflexivity].
+    apply IH. exact H.
+Qed.
+
+Theorem qsafe_by_run : forall bad prog s pc N,
+  bad OutOfFuel = false ->
+  snd (qrun_from prog s pc N) <> OutOfFuel ->
+  bad (snd (qrun_from prog s pc N)) = false ->
+  qsafe bad prog s pc.
+Proof.
+  intros bad prog s pc N Hb Hne Hok f.
+  destruct (qrun_fuel_stable N prog s pc f Hne) as [E|E]; rewrite E; assumption.
+Qed.
